@@ -1,9 +1,14 @@
 /- C13: fixed-width text — theorems about the primitive model for every width, pad byte, side and byte string. -/
 import FinProto.Obl.SPrims
+import FinProto.Obl.SFixed
 import FinProto.Props.PrimLemmas
 namespace FinProto.Obl
 open FinProto
 /-- the primitives, template-translated from the current source, are the pinned ones (or unrecognised) -/
 theorem C13_prims : primsAgree Gen.prims pinnedPrims = true := gen_prims_agree
+
+/-- every fixed-width text field of every message of the current source is written and read with the pinned width, pad byte
+    and pad side (the primitive theorems are about those arguments) -/
+theorem C13_fixed_fields : Gen.types.map fixedProj = Pinned.types.map fixedProj := gen_fixed_eq_pinned
 
 end FinProto.Obl
